@@ -176,6 +176,10 @@ def _pack_and_check(gdf, gcols, ocols, spec, k, p, expected, ref, fails, labels,
             # the input is itself a packed frame (its index is already called hilbert_distance, computed at another order)
             ddf = ddf.pack_partitions(npartitions=prepack[0], p=prepack[1])
             labels.append('prepacked-input')
+            if len(prepack) > 2 and prepack[2]:
+                # ... whose divisions are not known any more (as after a parquet round trip)
+                ddf = ddf.clear_divisions()
+                labels.append('prepacked-input-unknown-divisions')
         res = ddf.pack_partitions(npartitions=k, p=p)
     except Exception as e:  # noqa: BLE001 - the statement claims nothing when the call raises
         labels.append(f'raised:{type(e).__name__}')
@@ -186,7 +190,17 @@ def _pack_and_check(gdf, gcols, ocols, spec, k, p, expected, ref, fails, labels,
     if res.index.name != INDEX_NAME:
         fails.append((['C09', 'index', 'name'], f'index name {res.index.name!r}; {detail}'))
     import dask
-    parts = lib(['C09', 'compute'], lambda: list(dask.compute(*res.to_delayed())))
+    try:
+        parts = list(dask.compute(*res.to_delayed()))
+    except Exception as e:  # noqa: BLE001
+        from ..harness import Failure, lib_frame
+        site = lib_frame(e)
+        if site == 'outside-spatialpandas':
+            # Dask itself cannot build the requested partitioning (e.g. its repartition asserts when asked for more
+            # partitions than there are distinct index values): the lazily returned frame is the "call raises" case
+            labels.append(f'compute-raised-in-dask:{type(e).__name__}')
+            return None
+        raise Failure(['C09', 'compute', 'raises', type(e).__name__, site], f'{type(e).__name__}: {e}; {detail}') from e
     if len(parts) != k:
         how = 'fewer-than-requested' if len(parts) < k else 'more-than-requested'
         labels.append('partitions:' + how)
@@ -324,7 +338,7 @@ def _case(draw):
     presort = draw(st.sampled_from(range(4))) == 0
     fr = draw(frames())
     n = fr['n']
-    prepack = [draw(st.sampled_from(range(1, 5))), draw(st.sampled_from(range(1, 13)))] if draw(st.sampled_from(range(5))) == 0 else None
+    prepack = [draw(st.sampled_from(range(1, 5))), draw(st.sampled_from(range(1, 13))), draw(st.booleans())] if draw(st.sampled_from(range(5))) == 0 else None
     return {'frame': fr, 'presort': presort, 'parts_a': draw(partitionings(n)), 'parts_b': draw(partitionings(n)),
             'npartitions': k, 'p': p, 'prepack': prepack}
 
